@@ -97,20 +97,48 @@ func C08(c *Ctx) {
 		// ---- b
 		if !v.Params.Optimize {
 			fd := v.Func("parser", "parseExprWrap")
-			def := ""
+			// at the lookup and at the store the conditions in force include "the rule being evaluated is not left
+			// recursive" (the flag of the rule on top of the rule stack, read directly or through a local defined once)
+			defs := map[string]string{}
+			cnt := map[string]int{}
 			ast.Inspect(fd.Body, func(nd ast.Node) bool {
-				if as, ok := nd.(*ast.AssignStmt); ok && nospace(as.Lhs[0]) == "isLeftRecursion" {
-					def = nospace(as.Rhs[0])
+				if as, ok := nd.(*ast.AssignStmt); ok && len(as.Lhs) == len(as.Rhs) {
+					for k, l := range as.Lhs {
+						if id, ok := l.(*ast.Ident); ok {
+							cnt[id.Name]++
+							defs[id.Name] = nospace(as.Rhs[k])
+						}
+					}
 				}
 				return true
 			})
+			lrFlag := "p.rstack[len(p.rstack)-1].leftRecursive"
 			var gs []string
+			nOK := 0
 			for _, ce := range callsIn(fd.Body) {
 				if s := callSel(ce); s == "getMemoized" || s == "setMemoized" {
-					gs = append(gs, strings.Join(guardsOf(fd.Body, ce.Pos()), ";"))
+					has := false
+					var conj []string
+					for _, f := range factsAt(fd.Body, ce.Pos()) {
+						conj = append(conj, splitTop(f, "&&")...)
+					}
+					for _, cj := range conj {
+						x := strings.TrimPrefix(cj, "!")
+						if cnt[x] == 1 {
+							x = defs[x]
+						}
+						if strings.HasPrefix(cj, "!") && x == lrFlag {
+							has = true
+						}
+					}
+					if has {
+						nOK++
+					}
+					gs = append(gs, strings.Join(conj, "&&"))
 				}
 			}
-			ok := def == "p.rstack[len(p.rstack)-1].leftRecursive" && len(gs) == 2 && gs[0] == "p.memoize&&!isLeftRecursion" && gs[1] == gs[0]
+			ok := len(gs) == 2 && nOK == 2
+			def := lrFlag
 			r.Check(ok, "C08-b", "T.parseExprWrap:memo-off-in-LR-rules", vn, v.Where(fd.Pos()), "both guards p.memoize && !isLeftRecursion", fmt.Sprintf("isLeftRecursion := %s; guards %v", def, gs))
 		}
 		// ---- c
